@@ -6,6 +6,7 @@ import (
 
 	"github.com/intuitivelabs/sipsp"
 
+	"verif/harness/core"
 	"verif/harness/view"
 )
 
@@ -75,7 +76,10 @@ func (o *msgObj) Call(buf []byte, offs int) (int, sipsp.ErrorHdr) {
 }
 func (o *msgObj) View(v *view.Vec, op view.MsgOpt) { view.Msg(v, &o.m, op) }
 func (o *msgObj) Reset()                           { o.m.Reset() }
-func (o *msgObj) State() uint32                    { return view.StMsg(&o.m) }
+func (o *msgObj) State() uint32 {
+	// section | header-line state | first-line state | pending typed sub-automaton and its state
+	return view.StMsg(&o.m) | pvState(&o.m.PV)
+}
 
 // Msg gives access to the underlying message (for monitors needing it).
 func (o *msgObj) Msg() *sipsp.PSIPMsg { return &o.m }
@@ -495,3 +499,98 @@ func IsErrVerdict(e sipsp.ErrorHdr) bool {
 	}
 	return true
 }
+
+// ---- decoding of the automaton states for the evidence ----
+
+var fbNames = []string{"fbInit", "fbNameOrURI", "fbNameOrURIEnd", "fbName", "fbQuoted", "fbURI", "fbURIFound", "fbNewPossibleParam", "fbPossibleParamName",
+	"fbPossibleParamNameEnd", "fbNewParam", "fbParamName", "fbParamNameEnd", "fbNewParamVal", "fbParamVal", "fbParamValEnd", "fbNewPossibleVal", "fbPossibleVal",
+	"fbPossibleValEnd", "fbQuotedVal", "fbQuotedPossibleVal", "fbTagT", "fbTagA", "fbTagG", "fbTagEq", "fbTagVal", "fbPTagT", "fbPTagA", "fbPTagG", "fbPTagEq", "fbPTagVal", "fbStar", "fbFIN"}
+var hNames = []string{"hInit", "hName", "hNameEnd", "hBodyStart", "hVal", "hValEnd", "hFrom", "hTo", "hCallID", "hCSeq", "hCLen", "hContact", "hExpires", "hPAI", "hFIN"}
+var flNames = []string{"flInit", "flReqMethod", "flReqURI", "flReqVer", "flRplStatus", "flRplReason", "flCRLF", "flFIN"}
+var csNames = []string{"csInit", "csFoundDigit", "csEndDigit", "csFoundMethod", "csEnd", "csFIN"}
+var ciNames = []string{"ciInit", "ciFound", "ciEnd", "ciFIN"}
+var clNames = []string{"clInit", "clFound", "clEnd", "clFIN"}
+var tokNames = []string{"paramInit", "paramName", "paramFEq", "paramFVal", "paramVal", "paramFSep", "paramFNxt", "paramInitNxtVal", "paramQuotedVal", "paramERR", "paramFIN"}
+var msgNames = []string{"Init", "FLine", "Headers", "Body", "Err", "NoCLen", "FIN"}
+
+func nm(tbl []string, i uint32) string {
+	if int(i) < len(tbl) {
+		return tbl[i]
+	}
+	return fmt.Sprintf("state%d", i)
+}
+
+func pvName(s uint32) string {
+	if s == 0 {
+		return ""
+	}
+	which := []string{"", "From", "To", "Call-ID", "CSeq", "CLen", "Expires", "Contact[N]", "Contact(scratch)", "PAI[N]", "PAI(scratch)"}
+	k := s >> 8
+	sub := s & 0xff
+	var t []string
+	switch k {
+	case 3:
+		t = ciNames
+	case 4:
+		t = csNames
+	case 5, 6:
+		t = clNames
+	default:
+		t = fbNames
+	}
+	return nm(which, k) + ":" + nm(t, sub)
+}
+
+func hdrName(h uint32) string {
+	if h&0x80 != 0 {
+		return "scratch:" + nm(hNames, h&0x7f)
+	}
+	return nm(hNames, h)
+}
+
+// StateName renders an automaton state observed at a suspension point.
+func StateName(parser string, st uint32) string {
+	p := ParserByName(parser)
+	if p == nil {
+		return fmt.Sprint(st)
+	}
+	switch {
+	case p.IsMsg:
+		s := nm(msgNames, st>>24)
+		if st>>24 == 1 {
+			return s + "/" + nm(flNames, (st>>12)&0xf)
+		}
+		s += "/" + hdrName((st>>16)&0xff)
+		if pv := pvName(st & 0xfff); pv != "" {
+			s += "/" + pv
+		}
+		return s
+	case p.Name == "ParseFLine":
+		return nm(flNames, st)
+	case p.Group == "hdr" || p.Group == "hdrpv":
+		s := hdrName(st & 0xff)
+		if pv := pvName(st >> 8); pv != "" {
+			s += "/" + pv
+		}
+		return s
+	case p.Group == "nameaddr":
+		if st&0x80 != 0 {
+			return "scratch:" + nm(fbNames, st&0x7f)
+		}
+		return nm(fbNames, st)
+	case p.Group == "cseq":
+		return nm(csNames, st)
+	case p.Group == "callid":
+		return nm(ciNames, st)
+	case p.Group == "uint":
+		return nm(clNames, st)
+	case p.Group == "tok":
+		if st&0x80 != 0 {
+			return "scratch:" + nm(tokNames, st&0x7f)
+		}
+		return nm(tokNames, st)
+	}
+	return fmt.Sprint(st)
+}
+
+func init() { core.StateNamer = StateName }
